@@ -45,11 +45,12 @@ def fails(kind, toks, target):
 
 
 DROPPING = ("nolicence", "nocopyright", "nothing", "nolicence.commented", "nothing.commented")
+BROKEN = ("broken-syntax", "broken-unclosed", "broken-filter", "broken-undefined", "broken-div0", "broken-include", "broken-type", "broken-utf8")
 
 
 def bounds(tier, seed):
     return {"kinds": list(KINDS), "files_per_invocation": 3, "orders": "all", "targets": ["in-file", "force-dot-license"], "holder_token_sets": [list(t) for t in HOLDER_SETS],
-            "dropping_templates": list(DROPPING), "usage_cells": len(list(usage_cells()))}
+            "dropping_templates": list(DROPPING), "broken_templates": list(BROKEN), "usage_cells": len(list(usage_cells()))}
 
 
 def usage_cells():
@@ -87,7 +88,7 @@ def cases(tier, seed):
                 yield {"k": "mix", "sel": list(sel), "target": "in-file", "toks": list(toks), "variant": i % 4}
     for sel in itertools.combinations(kinds, 3):
         yield {"k": "mix", "sel": list(sel), "target": "force-dot-license", "toks": list(TOKENS)}
-    for tpl in DROPPING:
+    for tpl in DROPPING + BROKEN:
         for target in ("in-file", "force-dot-license", "fallback-dot-license"):
             for sel in itertools.permutations(["H1", "X1", "H3", "BIN", "C3"], 2):
                 yield {"k": "tpl", "tpl": tpl, "target": target, "sel": list(sel)}
@@ -192,9 +193,12 @@ def ev_tpl(c) -> R:
     label = f"annotate {argv} {names}"
     if res.exc:
         r.violation(f"crash|tpl={c['tpl']}", f"{label}: {res.exc_repr}")
+        if after != before:
+            changed = sorted(p for p in set(after) | set(before) if after.get(p) != before.get(p))
+            r.violation(f"tpl-tree-changed|tpl={c['tpl']}|{c['target']}", f"{label}: the run failed ({res.exc_repr}) but the tree changed: {changed}")
         return r
-    if res.exit_code != 1:
-        r.violation(f"tpl-exit-status|tpl={c['tpl']}|{c['target']}", f"{label}: template drops information, exit status {res.exit_code}")
+    if res.exit_code not in ((1, 2) if c["tpl"] in BROKEN else (1,)):
+        r.violation(f"tpl-exit-status|tpl={c['tpl']}|{c['target']}", f"{label}: template drops information / cannot be rendered, exit status {res.exit_code}")
     if after != before:
         changed = sorted(p for p in set(after) | set(before) if after.get(p) != before.get(p))
         r.violation(f"tpl-tree-changed|tpl={c['tpl']}|{c['target']}", f"{label}: every file must fail, but the tree changed: {changed}")
